@@ -8,6 +8,12 @@
 // directly from the meaning of each primitive. In addition every case runs the eight Recover
 // variants over the same program with equivalent handlers, and one explicit law instance.
 //
+// Discipline: every program VALUE is used at least twice. One value is built per (skeleton,
+// failure set) and executed six times (Run/Exec/Eval, three initial states, PRNG order), then
+// wrapped by each Recover variant (wrappers executed twice); skeletons use one value at several
+// positions (kShared); rerun batches do the same for the raw collection-valued programs built
+// from one-shot iterators; kept results are looked at again after the later executions.
+//
 // State S = string: every state-changing step appends (or, for Put, installs) a token that
 // names the step, so two different state histories never collide. Value A = int.
 package main
@@ -90,6 +96,9 @@ const (
 	kFlatMapTraverseSeq
 	kFlatMapTraverseSlice
 	kFoldM
+	// a program VALUE bound once and used at several positions (see pgen.pool): build returns
+	// the very same fp.StateT for every occurrence of the node
+	kShared
 	nKinds
 )
 
@@ -99,6 +108,7 @@ var kindName = [nKinds]string{
 	"StateT.Recover", "StateT.RecoverT", "StateT.RecoverWithState", "StateT.RecoverWithStateT", "StateT.RecoverWith", "StateT.RecoverCase", "StateT.RecoverCaseT", "StateT.RecoverCaseWith",
 	"FlatMap", "FlatMapConst", "Map2", "Zip", "Ap", "ApFunc", "FlatMap2", "Map3", "Zip3", "Compose", "Sequence", "SequenceIterator", "Concat",
 	"Traverse", "TraverseSeq", "TraverseSlice", "TraverseFunc", "TraverseSeqFunc", "TraverseSliceFunc", "FlatMapTraverseSeq", "FlatMapTraverseSlice", "FoldM",
+	"shared-value",
 }
 
 func site(k int) string {
@@ -107,6 +117,9 @@ func site(k int) string {
 	}
 	if k == kArg {
 		return "statet.Pure"
+	}
+	if k == kShared {
+		return "StateT/shared-value"
 	}
 	return "statet." + kindName[k]
 }
@@ -216,6 +229,10 @@ type rctx struct {
 	budget      *vrt.Budget
 	record      bool
 	visits      []visit
+	// library side: the program value built for every kShared node (built once per rctx)
+	shared map[*node]ST
+	// reference side: how often each shared value was executed in this run
+	sharedRuns map[*node]int
 }
 
 // visit: the reference entered node n with argument env in state s (used only to name the
@@ -329,6 +346,12 @@ func (c *rctx) ref(n *node, env int, s string) (int, error, string) {
 		return n.k, nil, s + n.tok
 	case kGet:
 		return hs(s) + n.k, nil, s
+	case kShared:
+		if c.sharedRuns == nil {
+			c.sharedRuns = map[*node]int{}
+		}
+		c.sharedRuns[n]++
+		return c.ref(n.kids[0], n.k, s)
 	}
 	// everything below starts by running kids[0] — except the few handled first
 	switch n.kind {
@@ -346,53 +369,24 @@ func (c *rctx) ref(n *node, env int, s string) (int, error, string) {
 		}
 		c.ev(event{id: n.id, tag: 'c', a: b})
 		return c.ref(n.kids[1], b, s1)
-	case kSequence, kSequenceIterator, kConcat:
-		vals := []int{}
-		cur := s
-		for _, kid := range n.kids {
-			v, e, s1 := c.ref(kid, env, cur)
-			cur = s1
-			if e != nil {
-				return 0, e, cur
-			}
-			vals = append(vals, v)
+	case kConcat:
+		vals, e, cur := c.refList(n, env, s)
+		if e != nil {
+			return 0, e, cur
 		}
-		if n.kind == kConcat {
-			return vals[len(vals)-1], nil, cur
-		}
-		return hashList(vals) + n.k, nil, cur
-	case kTraverse, kTraverseSeq, kTraverseSlice, kTraverseFunc, kTraverseSeqFunc, kTraverseSliceFunc, kFlatMapTraverseSeq, kFlatMapTraverseSlice:
-		items := n.items
-		cur := s
-		if n.kind == kFlatMapTraverseSeq || n.kind == kFlatMapTraverseSlice {
-			v, e, s1 := c.ref(n.kids[1], env, s)
-			if e != nil {
-				return 0, e, s1
-			}
-			items, cur = shifted(items, v), s1
-		}
-		vals := []int{}
-		for _, a := range items {
-			v, e, s1 := c.ref(n.kids[0], a, cur)
-			cur = s1
-			if e != nil {
-				return 0, e, cur
-			}
-			vals = append(vals, v)
+		return vals[len(vals)-1], nil, cur
+	case kSequence, kSequenceIterator, kTraverse, kTraverseSeq, kTraverseSlice, kTraverseFunc, kTraverseSeqFunc, kTraverseSliceFunc, kFlatMapTraverseSeq, kFlatMapTraverseSlice:
+		vals, e, cur := c.refList(n, env, s)
+		if e != nil {
+			return 0, e, cur
 		}
 		return hashList(vals) + n.k, nil, cur
 	case kFoldM:
-		b := n.k
-		cur := s
-		for _, a := range n.items {
-			v, e, s1 := c.ref(n.kids[0], b*3+a, cur)
-			cur = s1
-			if e != nil {
-				return 0, e, cur
-			}
-			b = v
+		vals, e, cur := c.refList(n, env, s)
+		if e != nil {
+			return 0, e, cur
 		}
-		return b, nil, cur
+		return vals[0], nil, cur
 	}
 	v, e, s1 := c.ref(n.kids[0], env, s)
 	switch n.kind {
@@ -548,6 +542,58 @@ func (c *rctx) ref(n *node, env int, s string) (int, error, string) {
 	panic("ref: bad kind " + strconv.Itoa(n.kind))
 }
 
+// refList is the meaning of the collection-valued combinators before their result is folded
+// into an int: the list of element results (FoldM: the one-element list of the accumulator).
+func (c *rctx) refList(n *node, env int, s string) ([]int, error, string) {
+	switch n.kind {
+	case kSequence, kSequenceIterator, kConcat:
+		vals := []int{}
+		cur := s
+		for _, kid := range n.kids {
+			v, e, s1 := c.ref(kid, env, cur)
+			cur = s1
+			if e != nil {
+				return nil, e, cur
+			}
+			vals = append(vals, v)
+		}
+		return vals, nil, cur
+	case kTraverse, kTraverseSeq, kTraverseSlice, kTraverseFunc, kTraverseSeqFunc, kTraverseSliceFunc, kFlatMapTraverseSeq, kFlatMapTraverseSlice:
+		items := n.items
+		cur := s
+		if n.kind == kFlatMapTraverseSeq || n.kind == kFlatMapTraverseSlice {
+			v, e, s1 := c.ref(n.kids[1], env, s)
+			if e != nil {
+				return nil, e, s1
+			}
+			items, cur = shifted(items, v), s1
+		}
+		vals := []int{}
+		for _, a := range items {
+			v, e, s1 := c.ref(n.kids[0], a, cur)
+			cur = s1
+			if e != nil {
+				return nil, e, cur
+			}
+			vals = append(vals, v)
+		}
+		return vals, nil, cur
+	case kFoldM:
+		b := n.k
+		cur := s
+		for _, a := range n.items {
+			v, e, s1 := c.ref(n.kids[0], b*3+a, cur)
+			cur = s1
+			if e != nil {
+				return nil, e, cur
+			}
+			b = v
+		}
+		return []int{b}, nil, cur
+	}
+	panic("refList: bad kind " + strconv.Itoa(n.kind))
+}
+
 // ---- library program ----------------------------------------------------------------------
 
 func mkFn(a int) fp.Func1[int, int] { return func(b int) int { return a*31 + b } }
@@ -606,6 +652,18 @@ func (c *rctx) build(n *node, env int) ST {
 		}), n)
 	case kGet:
 		return statet.Map(statet.Get[S](), func(s S) int { return hs(s) + n.k })
+	case kShared:
+		// the program value is built once (argument n.k) and the same value is returned for
+		// every position it is used at — also from continuations that run later
+		if p, ok := c.shared[n]; ok {
+			return p
+		}
+		p := c.build(n.kids[0], n.k)
+		if c.shared == nil {
+			c.shared = map[*node]ST{}
+		}
+		c.shared[n] = p
+		return p
 	case kWithState:
 		return statet.WithState(func(s S) ST {
 			c.ev(event{id: n.id, tag: 'S', s: s})
@@ -816,6 +874,11 @@ type pgen struct {
 	errs   []error
 	fpKind []int
 	maxDep int
+	// sharing of program values
+	share      bool
+	pool       []*node
+	sharedUses int   // positions filled with an already bound value
+	dups       []int // kinds whose operands are one and the same value
 }
 
 var leafKinds = []int{kPure, kArg, kFromTry, kFromTry, kGetS, kGetST, kGetST, kRun, kRun, kMerge, kModifyS, kPut, kPut, kPutWith, kModify, kModify, kModifyT, kModifyT, kGet}
@@ -852,21 +915,71 @@ func (g *pgen) items() []int {
 	return out
 }
 
+// gen returns the program for one position. With sharing switched on (g.share) a position
+// may be filled with a program VALUE that was bound earlier (kShared, the same node and — on
+// the library side — the same fp.StateT), and a freshly generated program may be bound for
+// later use. Only completed subtrees enter the pool, so the structure stays acyclic.
 func (g *pgen) gen(depth int) *node {
+	r := g.r
+	if g.share && len(g.pool) > 0 && r.IntN(5) == 0 {
+		g.sharedUses++
+		return g.pool[r.IntN(len(g.pool))]
+	}
+	n := g.gen1(depth)
+	if g.share && r.IntN(5) == 0 {
+		return g.bind(n)
+	}
+	return n
+}
+
+// bind turns n into a shared program value (built once with the fixed argument sh.k).
+func (g *pgen) bind(n *node) *node {
+	if n.kind == kShared {
+		return n
+	}
+	sh := g.newNode(kShared)
+	g.budget++ // binding is not a step of the program
+	sh.k = g.r.IntN(5) - 2
+	sh.kids = []*node{n}
+	g.pool = append(g.pool, sh)
+	return sh
+}
+
+func (g *pgen) gen1(depth int) *node {
 	r := g.r
 	if g.budget <= 1 || depth >= g.maxDep || r.IntN(6) == 0 {
 		n := g.newNode(leafKinds[r.IntN(len(leafKinds))])
 		n.mode = r.IntN(3)
 		return n
 	}
-	kind := kMap + r.IntN(nKinds-kMap)
+	kind := kMap + r.IntN(kShared-kMap)
 	n := g.newNode(kind)
+	g.fill(n, depth)
+	return n
+}
+
+// fill generates the operands of a combinator node.
+func (g *pgen) fill(n *node, depth int) {
+	r := g.r
+	kind := n.kind
 	kid := func() *node { return g.gen(depth + 1) }
 	optKid := func() *node {
 		if r.IntN(3) == 0 {
 			return nil
 		}
 		return g.gen(depth + 1)
+	}
+	// dup: the SAME program value at two (or more) positions of this combinator
+	dup := g.share && r.IntN(4) == 0
+	same := func(times int) []*node {
+		sh := g.bind(g.gen(depth + 1))
+		out := make([]*node, times)
+		for i := range out {
+			out[i] = sh
+		}
+		g.sharedUses += times - 1
+		g.dups = append(g.dups, kind)
+		return out
 	}
 	switch kind {
 	case kMap, kMapT, kMapWithState, kMapWithStateT, kPeekState, kReplace, kApTry, kApOption,
@@ -879,31 +992,60 @@ func (g *pgen) gen(depth int) *node {
 		n.mode = r.IntN(2)
 		n.kids = []*node{kid()}
 	case kTransformWith:
-		n.kids = []*node{kid(), kid(), optKid()}
+		if dup { // the failure branch retries the program itself
+			k := same(2)
+			n.kids = []*node{k[0], kid(), k[1]}
+		} else {
+			n.kids = []*node{kid(), kid(), optKid()}
+		}
 	case kFlatten, kRecoverWith, kFlatMapConst, kMap2, kZip, kAp, kApFunc, kCompose:
-		n.kids = []*node{kid(), kid()}
+		if dup && kind != kCompose { // both operands / the program as its own recovery
+			n.kids = same(2)
+		} else {
+			n.kids = []*node{kid(), kid()}
+		}
 	case kRecoverCaseWith:
 		n.mode = r.IntN(2)
-		n.kids = []*node{kid(), kid()}
+		if dup {
+			n.kids = same(2)
+		} else {
+			n.kids = []*node{kid(), kid()}
+		}
 	case kWithState:
 		n.kids = []*node{kid(), optKid()}
 	case kFlatMap:
 		n.mode = r.IntN(2)
-		n.kids = []*node{kid(), kid()}
-		if n.mode == 1 {
-			n.kids = append(n.kids, kid())
+		if dup {
+			n.kids = same(2 + n.mode)
+		} else {
+			n.kids = []*node{kid(), kid()}
+			if n.mode == 1 {
+				n.kids = append(n.kids, kid())
+			}
 		}
 	case kFlatMap2, kMap3, kZip3:
-		n.kids = []*node{kid(), kid(), kid()}
+		if dup {
+			n.kids = same(3)
+		} else {
+			n.kids = []*node{kid(), kid(), kid()}
+		}
 	case kSequence, kSequenceIterator:
 		m := r.IntN(4)
-		for i := 0; i < m; i++ {
-			n.kids = append(n.kids, kid())
+		if dup {
+			n.kids = same(2 + r.IntN(2))
+		} else {
+			for i := 0; i < m; i++ {
+				n.kids = append(n.kids, kid())
+			}
 		}
 	case kConcat:
 		m := 1 + r.IntN(4)
-		for i := 0; i < m; i++ {
-			n.kids = append(n.kids, kid())
+		if dup {
+			n.kids = same(2 + r.IntN(2))
+		} else {
+			for i := 0; i < m; i++ {
+				n.kids = append(n.kids, kid())
+			}
 		}
 	case kTraverse, kTraverseSeq, kTraverseSlice, kTraverseFunc, kTraverseSeqFunc, kTraverseSliceFunc, kFoldM:
 		n.items = g.items()
@@ -914,7 +1056,6 @@ func (g *pgen) gen(depth int) *node {
 	default:
 		panic("gen: kind " + strconv.Itoa(kind))
 	}
-	return n
 }
 
 // ---- comparison ---------------------------------------------------------------------------
@@ -993,39 +1134,57 @@ func setSizes(n *node) int {
 	return n.size
 }
 
-// compareOnce runs subtree n alone (argument env, state s) in the library and in the reference.
-func compareOnce(n *node, env int, s string, fails []bool, errs []error) (ok bool, what, detail string) {
-	rc := &rctx{fails: fails, errs: errs}
-	wv, werr, ws := rc.ref(n, env, s)
-	lc := &rctx{fails: fails, errs: errs, budget: vrt.NewBudget(int64(len(rc.trace)*4+64), "callbacks of one StateT run")}
+// compareOnce builds subtree n alone (argument env) ONCE and executes that program value
+// `runs` times from state s, in the library and in the reference. A disagreement of a later
+// execution is reported as what == "rerun-differs".
+func compareOnce(n *node, env int, s string, fails []bool, errs []error, runs int) (ok bool, what, detail string) {
 	defer func() {
 		if r := recover(); r != nil {
 			ok, what, detail = false, "panic", fmt.Sprint(r)
 		}
 	}()
-	lt, ls := lc.build(n, env).Run(s)
-	if !sameTry(lt, wv, werr) {
-		return false, "result", fmt.Sprintf("%s.Run(%q) result %s, reference %s (state %q / %q)", n, s, tryStr(lt), refStr(wv, werr), ls, ws)
-	}
-	if ls != ws {
-		return false, "state", fmt.Sprintf("%s.Run(%q) = %s with final state %q, reference state %q", n, s, tryStr(lt), ls, ws)
-	}
-	if same, why := sameTrace(lc.trace, rc.trace); !same {
-		return false, "callbacks", fmt.Sprintf("%s.Run(%q): %s", n, s, why)
+	lc := &rctx{fails: fails, errs: errs}
+	p := lc.build(n, env)
+	for x := 0; x < runs; x++ {
+		rc := &rctx{fails: fails, errs: errs}
+		wv, werr, ws := rc.ref(n, env, s)
+		lc.trace = nil
+		lc.budget = vrt.NewBudget(int64(len(rc.trace)*4+64), "callbacks of one StateT run")
+		lt, ls := p.Run(s)
+		nth := ""
+		if x > 0 {
+			nth = fmt.Sprintf(" (execution #%d of the same program value)", x+1)
+		}
+		mis := func(w string) string {
+			if x > 0 {
+				return "rerun-differs"
+			}
+			return w
+		}
+		if !sameTry(lt, wv, werr) {
+			return false, mis("result"), fmt.Sprintf("%s.Run(%q)%s result %s, reference %s (state %q / %q)", n, s, nth, tryStr(lt), refStr(wv, werr), ls, ws)
+		}
+		if ls != ws {
+			return false, mis("state"), fmt.Sprintf("%s.Run(%q)%s = %s with final state %q, reference state %q", n, s, nth, tryStr(lt), ls, ws)
+		}
+		if same, why := sameTrace(lc.trace, rc.trace); !same {
+			return false, mis("callbacks"), fmt.Sprintf("%s.Run(%q)%s: %s", n, s, nth, why)
+		}
 	}
 	return true, "", ""
 }
 
 // blame names the call site of a mismatch: among the (node, argument, state) visits the
-// reference made, the smallest subtree that already disagrees when run on its own. The
-// expected values always come from the reference; the library is only re-run.
-func blame(visits []visit, fails []bool, errs []error) (site_ string, what, detail string, found bool) {
+// reference made, the smallest subtree that already disagrees when built on its own and
+// executed `runs` times. The expected values always come from the reference; the library is
+// only re-run.
+func blame(visits []visit, fails []bool, errs []error, runs int) (site_ string, what, detail string, found bool) {
 	best := -1
 	for i, v := range visits {
 		if best >= 0 && v.n.size >= visits[best].n.size {
 			continue
 		}
-		if ok, _, _ := compareOnce(v.n, v.env, v.s, fails, errs); !ok {
+		if ok, _, _ := compareOnce(v.n, v.env, v.s, fails, errs, runs); !ok {
 			best = i
 		}
 	}
@@ -1033,8 +1192,17 @@ func blame(visits []visit, fails []bool, errs []error) (site_ string, what, deta
 		return "", "", "", false
 	}
 	v := visits[best]
-	_, what, detail = compareOnce(v.n, v.env, v.s, fails, errs)
-	return site(v.n.kind), what, "smallest disagreeing sub-program: " + detail, true
+	_, what, detail = compareOnce(v.n, v.env, v.s, fails, errs, runs)
+	return siteOfNode(v.n), what, "smallest disagreeing sub-program: " + detail, true
+}
+
+// siteOfNode: the call site that produced the program value n (a shared value is the value
+// of the program it binds).
+func siteOfNode(n *node) string {
+	for n.kind == kShared {
+		n = n.kids[0]
+	}
+	return site(n.kind)
 }
 
 type checker struct {
@@ -1075,6 +1243,65 @@ func failStr(f []bool) string {
 	return b.String()
 }
 
+// refRun: what the reference says about the program started in one initial state.
+type refRun struct {
+	s   string // initial state
+	v   int
+	err error
+	fs  string // final state
+	rc  *rctx
+}
+
+// execOp: one execution of a program value — method Run / Exec ('X') / Eval ('V') from
+// initial state number st.
+type execOp struct {
+	m  byte
+	st int
+}
+
+type keptRes struct {
+	t  fp.Try[int]
+	s  string
+	et fp.Try[string]
+}
+
+var methodName = map[byte]string{'R': "Run", 'X': "Exec", 'V': "Eval"}
+
+// execAgrees executes p once as op says and reports whether result, state and callback log
+// agree with the reference run rr (used only to tell apart "wrong" from "wrong when executed
+// again").
+func execAgrees(p ST, lc *rctx, op execOp, rr refRun) (ok bool) {
+	defer func() {
+		if r := recover(); r != nil {
+			ok = false
+		}
+	}()
+	lc.trace = nil
+	lc.budget = vrt.NewBudget(int64(len(rr.rc.trace)*4+64), "callbacks of one StateT run")
+	switch op.m {
+	case 'R':
+		lt, ls := p.Run(rr.s)
+		if !sameTry(lt, rr.v, rr.err) || ls != rr.fs {
+			return false
+		}
+	case 'X':
+		et := p.Exec(rr.s)
+		if rr.err == nil {
+			if !et.IsSuccess() || et.Get() != rr.fs {
+				return false
+			}
+		} else if !et.IsFailure() || et.Failed().Get() != rr.err {
+			return false
+		}
+	case 'V':
+		if !sameTry(p.Eval(rr.s), rr.v, rr.err) {
+			return false
+		}
+	}
+	same, _ := sameTrace(lc.trace, rr.rc.trace)
+	return same
+}
+
 func runProgramCase(w *vrt.W, i int) {
 	r := w.Rand(i)
 	maxSize := 8
@@ -1084,7 +1311,7 @@ func runProgramCase(w *vrt.W, i int) {
 	var g *pgen
 	var root *node
 	for try := 0; ; try++ {
-		g = &pgen{r: r, budget: 2 + r.IntN(maxSize-1), maxDep: 2 + r.IntN(4)}
+		g = &pgen{r: r, budget: 2 + r.IntN(maxSize-1), maxDep: 2 + r.IntN(4), share: true}
 		root = g.gen(0)
 		if len(g.errs) > 0 || try > 20 {
 			break
@@ -1093,6 +1320,7 @@ func runProgramCase(w *vrt.W, i int) {
 	setSizes(root)
 	desc := root.String()
 	s0 := statePool[r.IntN(len(statePool))]
+	states := []string{s0, randState(r), randState(r)}
 	env0 := r.IntN(5) - 2
 	nfp := len(g.errs)
 	// variants: none, each single position, two PRNG subsets
@@ -1131,26 +1359,39 @@ func runProgramCase(w *vrt.W, i int) {
 	}
 	recK := r.IntN(19) - 9
 	ck := &checker{w: w, i: i, root: root, desc: desc}
-	rootSite := site(root.kind)
+	rootSite := siteOfNode(root)
 	w.Begin(i, rootSite)
 	var noFailState string
 	sampled := false
+	sharedTwice := false
 	for vi, fails := range variants {
 		if ck.bad {
 			break
 		}
-		wit := map[string]any{"program": desc, "initial_state": s0, "arg": env0, "failing_points": failStr(fails), "nodes": g.nextID}
+		// the executions of this variant's program value: Run, Exec, Eval from the first
+		// initial state, Run from the second, two more PRNG ones — in PRNG order
+		ops := []execOp{{'R', 0}, {'X', 0}, {'V', 0}, {'R', 1}, {"RXV"[r.IntN(3)], 2}, {"RXV"[r.IntN(3)], r.IntN(3)}}
+		r.Shuffle(len(ops), func(a, b int) { ops[a], ops[b] = ops[b], ops[a] })
+		flip := r.IntN(2) == 1
+		var sched strings.Builder
+		for _, op := range ops {
+			fmt.Fprintf(&sched, "%s(%q) ", methodName[op.m], states[op.st])
+		}
+		wit := map[string]any{"program": desc, "initial_states": states, "arg": env0, "failing_points": failStr(fails), "nodes": g.nextID,
+			"executions_of_the_one_program_value": strings.TrimSpace(sched.String())}
 		witf := func() any { return wit }
 		w.Guard(i, witf, func() {
-			rc := &rctx{fails: fails, errs: g.errs, hits: &hits, failHits: &failHits, recOutcomes: recOut, record: true}
-			wv, werr, ws := rc.ref(root, env0, s0)
-			mismatch := func(what, detail string) {
-				if bs, bw, bd, ok := blame(rc.visits, fails, g.errs); ok {
-					ck.fail(bs+"/"+bw, detail+"\n"+bd, wit)
-					return
+			refs := make([]refRun, len(states))
+			for k, st := range states {
+				c := &rctx{fails: fails, errs: g.errs, record: true}
+				if k == 0 {
+					c.hits, c.failHits, c.recOutcomes = &hits, &failHits, recOut
 				}
-				ck.fail(rootSite+"/"+what, detail, wit)
+				v, e, fs := c.ref(root, env0, st)
+				refs[k] = refRun{st, v, e, fs, c}
 			}
+			rc := refs[0].rc
+			wv, werr, ws := refs[0].v, refs[0].err, refs[0].fs
 			if vi == 0 {
 				noFailState = ws
 			}
@@ -1164,53 +1405,145 @@ func runProgramCase(w *vrt.W, i int) {
 					w.Add("runs.failure_recovered", 1)
 				}
 			}
-			budget := int64(len(rc.trace)*4 + 64)
-			// Run
-			lc := &rctx{fails: fails, errs: g.errs, budget: vrt.NewBudget(budget, "callbacks of one StateT run")}
+			for _, c := range rc.sharedRuns {
+				if c >= 2 {
+					w.Add("runs.shared_value_executed_twice_or_more_in_one_run", 1)
+					sharedTwice = true
+					break
+				}
+			}
+			// ONE program value per failure set; everything below executes this value
+			lc := &rctx{fails: fails, errs: g.errs}
 			w.Site(rootSite)
-			lt, ls := lc.build(root, env0).Run(s0)
-			if !sameTry(lt, wv, werr) {
-				mismatch("result", fmt.Sprintf("Run(%q) result %s, reference %s (state %q / %q)", s0, tryStr(lt), refStr(wv, werr), ls, ws))
-				return
+			p := lc.build(root, env0)
+			w.Add("program_values", 1)
+			kept := make([]keptRes, len(ops))
+			for x, op := range ops {
+				rr := refs[op.st]
+				lc.trace = nil
+				lc.budget = vrt.NewBudget(int64(len(rr.rc.trace)*4+64), "callbacks of one StateT run")
+				nth := fmt.Sprintf("execution #%d of the program value: ", x+1)
+				// attribute: the smallest sub-program that disagrees when freshly built and run
+				// once; for a later execution, the smallest one that disagrees when built once
+				// and run twice; otherwise the key of the method / the root
+				attribute := func(what, plainKey, detail string) {
+					// x+1 executions of every sub-program value built on its own: finds what
+					// disagrees at once and what disagrees only when executed again
+					runs := x + 1
+					if runs < 2 {
+						runs = 2
+					}
+					if bs, bw, bd, ok := blame(rr.rc.visits, fails, g.errs, runs); ok {
+						ck.fail(bs+"/"+bw, nth+detail+"\n"+bd, wit)
+						return
+					}
+					if x > 0 {
+						// not a matter of re-execution when a freshly built value disagrees
+						// on this very execution too
+						fc := &rctx{fails: fails, errs: g.errs}
+						if execAgrees(fc.build(root, env0), fc, op, rr) {
+							ck.fail(rootSite+"/rerun-differs", nth+detail+"\n(a freshly built value of the same program agrees with the reference on this execution, and so does every sub-program built on its own)", wit)
+							return
+						}
+					}
+					ck.fail(plainKey, nth+detail, wit)
+				}
+				w.Add("executions", 1)
+				if x > 0 {
+					w.Add("executions.of_an_already_executed_value", 1)
+				}
+				if op.st != 0 {
+					w.Add("executions.from_another_initial_state", 1)
+				}
+				switch op.m {
+				case 'R':
+					w.Site(rootSite)
+					lt, ls := p.Run(rr.s)
+					kept[x] = keptRes{t: lt, s: ls}
+					if !sameTry(lt, rr.v, rr.err) {
+						attribute("result", rootSite+"/result", fmt.Sprintf("Run(%q) result %s, reference %s (state %q / %q)", rr.s, tryStr(lt), refStr(rr.v, rr.err), ls, rr.fs))
+						return
+					}
+					if ls != rr.fs {
+						attribute("state", rootSite+"/state", fmt.Sprintf("Run(%q) = %s with final state %q, reference state %q", rr.s, tryStr(lt), ls, rr.fs))
+						return
+					}
+					if ok, why := sameTrace(lc.trace, rr.rc.trace); !ok {
+						attribute("callbacks", rootSite+"/callbacks", fmt.Sprintf("Run(%q): %s\nlibrary:   %s\nreference: %s", rr.s, why, traceStr(lc.trace), traceStr(rr.rc.trace)))
+						return
+					}
+				case 'X':
+					w.Site("StateT.Exec")
+					et := p.Exec(rr.s)
+					kept[x] = keptRes{et: et}
+					if rr.err == nil {
+						if !et.IsSuccess() || et.Get() != rr.fs {
+							attribute("state", "StateT.Exec/result", fmt.Sprintf("Exec(%q) = %v, reference Success(%q)", rr.s, et, rr.fs))
+							return
+						}
+					} else if !et.IsFailure() || et.Failed().Get() != rr.err {
+						attribute("result", "StateT.Exec/result", fmt.Sprintf("Exec(%q) = %v, reference Failure(%s)", rr.s, et, errStr(rr.err)))
+						return
+					}
+					if ok, why := sameTrace(lc.trace, rr.rc.trace); !ok {
+						attribute("callbacks", "StateT.Exec/callbacks", "Exec: "+why)
+						return
+					}
+				case 'V':
+					w.Site("StateT.Eval")
+					vt := p.Eval(rr.s)
+					kept[x] = keptRes{t: vt}
+					if !sameTry(vt, rr.v, rr.err) {
+						attribute("result", "StateT.Eval/result", fmt.Sprintf("Eval(%q) = %s, reference %s", rr.s, tryStr(vt), refStr(rr.v, rr.err)))
+						return
+					}
+					if ok, why := sameTrace(lc.trace, rr.rc.trace); !ok {
+						attribute("callbacks", "StateT.Eval/callbacks", "Eval: "+why)
+						return
+					}
+				}
 			}
-			if ls != ws {
-				mismatch("state", fmt.Sprintf("Run(%q) = %s with final state %q, reference state %q", s0, tryStr(lt), ls, ws))
-				return
-			}
-			if ok, why := sameTrace(lc.trace, rc.trace); !ok {
-				mismatch("callbacks", fmt.Sprintf("Run(%q): %s\nlibrary:   %s\nreference: %s", s0, why, traceStr(lc.trace), traceStr(rc.trace)))
-				return
-			}
-			// Exec
-			lc = &rctx{fails: fails, errs: g.errs, budget: vrt.NewBudget(budget, "callbacks of one StateT run")}
-			et := lc.build(root, env0).Exec(s0)
-			if werr == nil {
-				if !et.IsSuccess() || et.Get() != ws {
-					ck.fail("StateT.Exec/result", fmt.Sprintf("Exec(%q) = %v, reference Success(%q)", s0, et, ws), wit)
+			// earlier results once more, after all later executions
+			for x, op := range ops {
+				rr := refs[op.st]
+				okk := true
+				switch op.m {
+				case 'R':
+					okk = sameTry(kept[x].t, rr.v, rr.err) && kept[x].s == rr.fs
+				case 'V':
+					okk = sameTry(kept[x].t, rr.v, rr.err)
+				case 'X':
+					if rr.err == nil {
+						okk = kept[x].et.IsSuccess() && kept[x].et.Get() == rr.fs
+					} else {
+						okk = kept[x].et.IsFailure() && kept[x].et.Failed().Get() == rr.err
+					}
+				}
+				if !okk {
+					ck.fail(rootSite+"/earlier-result-changed", fmt.Sprintf("the result of execution #%d (%s from %q) agreed with the reference when it was returned and no longer does after the later executions", x+1, methodName[op.m], rr.s), wit)
 					return
 				}
-			} else if !et.IsFailure() || et.Failed().Get() != werr {
-				ck.fail("StateT.Exec/result", fmt.Sprintf("Exec(%q) = %v, reference Failure(%s)", s0, et, errStr(werr)), wit)
-				return
-			}
-			if ok, why := sameTrace(lc.trace, rc.trace); !ok {
-				ck.fail("StateT.Exec/callbacks", "Exec: "+why, wit)
-				return
-			}
-			// Eval
-			lc = &rctx{fails: fails, errs: g.errs, budget: vrt.NewBudget(budget, "callbacks of one StateT run")}
-			vt := lc.build(root, env0).Eval(s0)
-			if !sameTry(vt, wv, werr) {
-				ck.fail("StateT.Eval/result", fmt.Sprintf("Eval(%q) = %s, reference %s", s0, tryStr(vt), refStr(wv, werr)), wit)
-				return
-			}
-			if ok, why := sameTrace(lc.trace, rc.trace); !ok {
-				ck.fail("StateT.Eval/callbacks", "Eval: "+why, wit)
-				return
 			}
 			w.Add("runs.exec_eval", 2)
-			// the eight Recover variants over the same program, equivalent handlers
-			recoverAll(ck, fails, g.errs, env0, s0, recK, wv, werr, ws, rc.trace, wit)
+			// the eight Recover variants over the same program VALUE, equivalent handlers
+			two := []refRun{refs[0], refs[1]}
+			if flip {
+				two[0], two[1] = two[1], two[0]
+			}
+			fresh := func() (ST, *rctx) {
+				fc := &rctx{fails: fails, errs: g.errs}
+				return fc.build(root, env0), fc
+			}
+			recoverAll(ck, p, lc, two, recK, wit, fresh, func(rr refRun, key, detail string) {
+				// a wrapper can only be as good as the value it wraps: if a sub-program value,
+				// built on its own and executed as often as p has been by now, disagrees with
+				// the reference, that is the site
+				if bs, bw, bd, ok := blame(rr.rc.visits, fails, g.errs, len(ops)+17); ok {
+					ck.fail(bs+"/"+bw, detail+"\n"+bd, wit)
+					return
+				}
+				ck.fail(key, detail, wit)
+			})
 			// non-trivial: a failure happened when the state had already changed and it cut
 			// off a later state change
 			if rc.firstFail && rc.firstFailS != s0 && ws != noFailState {
@@ -1219,7 +1552,8 @@ func runProgramCase(w *vrt.W, i int) {
 				if !sampled && w.WantSample() && len(desc) < 260 && i%97 == 0 {
 					sampled = true
 					w.Sample(map[string]any{"program": desc, "initial_state": s0, "arg": env0, "failing_points": failStr(fails),
-						"reference_result": refStr(wv, werr), "reference_state": ws, "state_at_first_failure": rc.firstFailS, "state_without_failure": noFailState})
+						"reference_result": refStr(wv, werr), "reference_state": ws, "state_at_first_failure": rc.firstFailS, "state_without_failure": noFailState,
+						"executions_of_the_one_program_value": strings.TrimSpace(sched.String())})
 				}
 			}
 		})
@@ -1229,83 +1563,519 @@ func runProgramCase(w *vrt.W, i int) {
 	w.Add("program_nodes", int64(g.nextID))
 	w.Max("max_program_nodes", int64(g.nextID))
 	w.Add("failure_points", int64(nfp))
+	w.Add("shared.values_bound", int64(len(g.pool)))
+	w.Add("shared.extra_positions", int64(g.sharedUses))
+	if g.sharedUses > 0 {
+		w.Add("programs.with_a_value_at_several_positions", 1)
+	}
+	if sharedTwice {
+		w.Add("programs.shared_value_executed_twice_in_one_run", 1)
+	}
+	for _, k := range g.dups {
+		w.Hit("same-value-operands@" + site(k))
+	}
 }
 
-// recoverAll wraps the whole program into each Recover variant with handlers that all
-// produce recK and checks every variant against the reference and hence against each other.
-func recoverAll(ck *checker, fails []bool, errs []error, env0 int, s0 string, recK, wv int, werr error, ws string, want []event, wit map[string]any) {
+// recoverAll wraps the program VALUE p (built once by the caller, already executed several
+// times) into each Recover variant with handlers that all produce recK, executes every
+// wrapper from two initial states and checks each execution against the reference and hence
+// the variants against each other. fresh builds another value of the same program (used only
+// to tell "wrong" from "wrong when executed again").
+func recoverAll(ck *checker, p ST, lc *rctx, runs []refRun, recK int, wit map[string]any, fresh func() (ST, *rctx), fail func(rr refRun, key, detail string)) {
 	type call struct {
 		s    string
 		hasS bool
 		err  error
 	}
 	names := []string{"Recover", "RecoverT", "RecoverWithState", "RecoverWithStateT", "RecoverWith", "RecoverCase", "RecoverCaseT", "RecoverCaseWith"}
+	wrap := func(vi int, p ST, calls *[]call) ST {
+		add := func(c call) { *calls = append(*calls, c) }
+		switch vi {
+		case 0:
+			return p.Recover(func(err error) int { add(call{err: err}); return recK })
+		case 1:
+			return p.RecoverT(func(err error) fp.Try[int] { add(call{err: err}); return try.Success(recK) })
+		case 2:
+			return p.RecoverWithState(func(s S, err error) int { add(call{s, true, err}); return recK })
+		case 3:
+			return p.RecoverWithStateT(func(s S, err error) fp.Try[int] { add(call{s, true, err}); return try.Success(recK) })
+		case 4:
+			return p.RecoverWith(func(err error) ST { add(call{err: err}); return statet.Pure[S](recK) })
+		case 5:
+			return p.RecoverCase(func(error) bool { return true }, func(err error) int { add(call{err: err}); return recK })
+		case 6:
+			return p.RecoverCaseT(func(error) bool { return true }, func(err error) fp.Try[int] { add(call{err: err}); return try.Success(recK) })
+		}
+		return p.RecoverCaseWith(func(error) bool { return true }, func(err error) ST { add(call{err: err}); return statet.Pure[S](recK) })
+	}
+	// judge: first disagreement of one execution of a wrapper with the reference run rr
+	judge := func(name string, t fp.Try[int], s string, calls []call, trace []event, rr refRun) (what, detail string) {
+		if rr.err == nil {
+			if !sameTry(t, rr.v, nil) || s != rr.fs {
+				return "success-not-untouched", fmt.Sprintf("%s over a succeeding program: (%s, %q), the program itself gives (%s, %q)", name, tryStr(t), s, refStr(rr.v, nil), rr.fs)
+			}
+			if len(calls) != 0 {
+				return "handler-called-on-success", fmt.Sprintf("%s called its handler %d times although the program succeeded", name, len(calls))
+			}
+			return "", ""
+		}
+		if len(calls) != 1 {
+			return "handler-calls", fmt.Sprintf("%s called its handler %d times for one failure", name, len(calls))
+		}
+		if calls[0].err != rr.err {
+			return "handler-error", fmt.Sprintf("%s handed its handler %s, the program failed with %s", name, errStr(calls[0].err), errStr(rr.err))
+		}
+		if calls[0].hasS && calls[0].s != rr.fs {
+			return "handler-state", fmt.Sprintf("%s handed its handler the state %q, the state at the failure is %q (initial state %q)", name, calls[0].s, rr.fs, rr.s)
+		}
+		if !sameTry(t, recK, nil) {
+			return "recovered-result", fmt.Sprintf("%s returned %s, its handler produced %d", name, tryStr(t), recK)
+		}
+		if s != rr.fs {
+			return "recovered-state", fmt.Sprintf("%s returned the state %q, the state at the failure is %q (initial state %q)", name, s, rr.fs, rr.s)
+		}
+		if ok, why := sameTrace(trace, rr.rc.trace); !ok {
+			return "callbacks", name + " changed what the wrapped program executed: " + why
+		}
+		return "", ""
+	}
 	for vi, name := range names {
 		if ck.bad {
 			return
 		}
 		var calls []call
-		lc := &rctx{fails: fails, errs: errs, budget: vrt.NewBudget(int64(len(want)*4+64), "callbacks of one StateT run")}
-		p := lc.build(ck.root, env0)
-		var q ST
-		switch vi {
-		case 0:
-			q = p.Recover(func(err error) int { calls = append(calls, call{err: err}); return recK })
-		case 1:
-			q = p.RecoverT(func(err error) fp.Try[int] { calls = append(calls, call{err: err}); return try.Success(recK) })
-		case 2:
-			q = p.RecoverWithState(func(s S, err error) int { calls = append(calls, call{s, true, err}); return recK })
-		case 3:
-			q = p.RecoverWithStateT(func(s S, err error) fp.Try[int] { calls = append(calls, call{s, true, err}); return try.Success(recK) })
-		case 4:
-			q = p.RecoverWith(func(err error) ST { calls = append(calls, call{err: err}); return statet.Pure[S](recK) })
-		case 5:
-			q = p.RecoverCase(func(error) bool { return true }, func(err error) int { calls = append(calls, call{err: err}); return recK })
-		case 6:
-			q = p.RecoverCaseT(func(error) bool { return true }, func(err error) fp.Try[int] { calls = append(calls, call{err: err}); return try.Success(recK) })
-		case 7:
-			q = p.RecoverCaseWith(func(error) bool { return true }, func(err error) ST { calls = append(calls, call{err: err}); return statet.Pure[S](recK) })
+		q := wrap(vi, p, &calls)
+		base := "StateT." + name
+		ck.w.Site(base)
+		for x, rr := range runs {
+			// the wrapper is a program value too: it is executed from both initial states
+			calls = nil
+			lc.trace = nil
+			lc.budget = vrt.NewBudget(int64(len(rr.rc.trace)*4+64), "callbacks of one StateT run")
+			t, s := q.Run(rr.s)
+			ck.w.Add("executions", 1)
+			if rr.err == nil {
+				ck.w.Add("recover."+name+".success", 1)
+			} else {
+				ck.w.Add("recover."+name+".failure", 1)
+			}
+			what, detail := judge(name, t, s, calls, lc.trace, rr)
+			if what == "" {
+				continue
+			}
+			if x > 0 {
+				// wrong only when executed again? a fresh program value in a fresh wrapper,
+				// executed once from this state, decides
+				fp0, fc := fresh()
+				var fcalls []call
+				fq := wrap(vi, fp0, &fcalls)
+				fc.budget = vrt.NewBudget(int64(len(rr.rc.trace)*4+64), "callbacks of one StateT run")
+				ft, fs := fq.Run(rr.s)
+				if fw, _ := judge(name, ft, fs, fcalls, fc.trace, rr); fw == "" {
+					fail(rr, base+"/rerun-differs", fmt.Sprintf("execution #%d of the same %s value, from %q: %s\n(a freshly built value agrees with the reference on this execution)", x+1, name, rr.s, detail))
+					return
+				}
+			}
+			fail(rr, base+"/"+what, detail)
+			return
 		}
-		key := "StateT." + name
-		ck.w.Site(key)
-		t, s := q.Run(s0)
+	}
+}
+
+// ---- program values with collection results: executed again, used at two positions ---------
+
+// The collection combinators take one-shot iterators / slices and return a program whose
+// result is an Iterator, a Seq or a slice. The program cases above fold that result into an
+// int inside the program; here the raw program value is built ONCE (from the iterator) and
+//   - executed 3..5 times by Run / Exec / Eval from PRNG initial states, every execution
+//     compared with the reference; Seq / slice results are kept exactly as returned and
+//     compared again after all later executions, Iterator results (readable once) are read
+//     only then;
+//   - used at two positions of a larger program (Concat, Map2, Zip, Sequence, FlatMap,
+//     FlatMapConst, its own RecoverWith handler), which is executed twice as well.
+// Keys: <site>/raw-result|raw-state|raw-callbacks for the first execution, <site>/rerun-differs
+// for a later one, <site>/earlier-result-changed, <site>/reused-value-differs.
+
+var rerunKinds = []int{kFoldM, kTraverse, kTraverseFunc, kTraverseSeq, kTraverseSeqFunc, kTraverseSlice, kTraverseSliceFunc, kFlatMapTraverseSeq, kFlatMapTraverseSlice, kSequence, kSequenceIterator}
+
+var reuseNames = []string{"Concat(p, p)", "Map2(p, p)", "Zip(p, p)", "p.RecoverWith(_ => p)", "Sequence([p, p])", "FlatMap(p, _ => p)", "FlatMapConst(p, p)"}
+
+type rerunner struct {
+	w      *vrt.W
+	i      int
+	r      *rand.Rand
+	site   string
+	n      *node
+	env    int
+	fails  []bool
+	errs   []error
+	lc     *rctx
+	states []string
+	wit    map[string]any
+	bad    bool
+}
+
+func (k *rerunner) fail(key, detail string) {
+	if k.bad {
+		return
+	}
+	k.bad = true
+	k.w.Violation(k.i, key, detail+"\nprogram value: "+k.n.String(), k.wit)
+}
+
+func eqInts(a, b []int) bool {
+	if len(a) != len(b) {
+		return false
+	}
+	for i := range a {
+		if a[i] != b[i] {
+			return false
+		}
+	}
+	return true
+}
+
+// exec1 executes p once (method and state from op) and compares with the reference. what is
+// "" when they agree. A successful Run/Eval result is returned un-read when deferView is set
+// (Iterator results of the value under test are read only after the later executions).
+func exec1[T any](k *rerunner, p fp.StateT[S, T], lc *rctx, op execOp, view func(T) []int, deferView bool) (what, detail string, t fp.Try[T], want []int, keep bool) {
+	st := k.states[op.st]
+	rc := &rctx{fails: k.fails, errs: k.errs}
+	want, werr, ws := rc.refList(k.n, k.env, st)
+	lc.trace = nil
+	lc.budget = vrt.NewBudget(int64(len(rc.trace)*4+64), "callbacks of one StateT run")
+	var s string
+	hasT, hasS := false, false
+	switch op.m {
+	case 'R':
+		t, s = p.Run(st)
+		hasT, hasS = true, true
+	case 'V':
+		t = p.Eval(st)
+		hasT = true
+	case 'X':
+		et := p.Exec(st)
 		if werr == nil {
-			ck.w.Add("recover."+name+".success", 1)
-			if !sameTry(t, wv, nil) || s != ws {
-				ck.fail(key+"/success-not-untouched", fmt.Sprintf("%s over a succeeding program: (%s, %q), the program itself gives (%s, %q)", name, tryStr(t), s, refStr(wv, nil), ws), wit)
-				return
+			if !et.IsSuccess() || et.Get() != ws {
+				return "state", fmt.Sprintf("%v, reference Success(%q)", et, ws), t, want, false
 			}
-			if len(calls) != 0 {
-				ck.fail(key+"/handler-called-on-success", fmt.Sprintf("%s called its handler %d times although the program succeeded", name, len(calls)), wit)
-				return
+		} else if !et.IsFailure() || et.Failed().Get() != werr {
+			return "result", fmt.Sprintf("%v, reference Failure(%s)", et, errStr(werr)), t, want, false
+		}
+	}
+	if hasT {
+		if werr != nil {
+			if !t.IsFailure() || t.Failed().Get() != werr {
+				return "result", fmt.Sprintf("result %v, reference Failure(%s)", t, errStr(werr)), t, want, false
 			}
+		} else {
+			if !t.IsSuccess() {
+				return "result", fmt.Sprintf("result %v, reference Success(%v)", t, want), t, want, false
+			}
+			if !deferView {
+				if got := view(t.Get()); !eqInts(got, want) {
+					return "result", fmt.Sprintf("result %v, reference %v", got, want), t, want, false
+				}
+			}
+			keep = true
+		}
+	}
+	if hasS && s != ws {
+		return "state", fmt.Sprintf("final state %q, reference %q", s, ws), t, want, false
+	}
+	if ok, why := sameTrace(lc.trace, rc.trace); !ok {
+		return "callbacks", why, t, want, false
+	}
+	return "", "", t, want, keep
+}
+
+// rerunCheck: mk builds the raw program value (from its one-shot iterator); ONE value is
+// executed 3..5 times. A disagreement of a later execution is keyed rerun-differs only if a
+// freshly built value agrees with the reference on that same execution.
+func rerunCheck[T any](k *rerunner, mk func(c *rctx) fp.StateT[S, T], p fp.StateT[S, T], view func(T) []int, oneShot bool) {
+	r := k.r
+	type keptT struct {
+		x    int
+		op   execOp
+		t    fp.Try[T]
+		want []int
+	}
+	freshAgrees := func(op execOp) bool {
+		fc := &rctx{fails: k.fails, errs: k.errs}
+		what, _, _, _, _ := exec1(k, mk(fc), fc, op, view, false)
+		return what == ""
+	}
+	var kept []keptT
+	nexec := 3 + r.IntN(3)
+	for x := 0; x < nexec && !k.bad; x++ {
+		op := execOp{"RRXV"[r.IntN(4)], r.IntN(len(k.states))}
+		st := k.states[op.st]
+		nth := fmt.Sprintf("execution #%d of the one program value, %s(%q): ", x+1, methodName[op.m], st)
+		k.w.Site(k.site)
+		k.w.Add("rerun.executions", 1)
+		if x > 0 {
+			k.w.Add("rerun.executions_after_the_first", 1)
+		}
+		what, detail, t, want, keep := exec1(k, p, k.lc, op, view, oneShot)
+		if what != "" {
+			if x > 0 && freshAgrees(op) {
+				k.fail(k.site+"/rerun-differs", nth+detail+"\n(a freshly built value agrees with the reference on this execution)")
+			} else {
+				k.fail(k.site+"/raw-"+what, nth+detail)
+			}
+			return
+		}
+		if keep {
+			kept = append(kept, keptT{x, op, t, want})
+		}
+	}
+	// every successful result again (Iterator results: for the first time), after all the
+	// later executions; the values are the ones returned, not copies
+	for _, kp := range kept {
+		k.w.Add("rerun.results_inspected_after_later_executions", 1)
+		got := view(kp.t.Get())
+		if eqInts(got, kp.want) {
 			continue
 		}
-		ck.w.Add("recover."+name+".failure", 1)
-		if len(calls) != 1 {
-			ck.fail(key+"/handler-calls", fmt.Sprintf("%s called its handler %d times for one failure", name, len(calls)), wit)
-			return
+		st := k.states[kp.op.st]
+		switch {
+		case !oneShot:
+			k.fail(k.site+"/earlier-result-changed", fmt.Sprintf("the result of execution #%d (%s(%q)) was %v when it was returned and reads %v after the later executions of the same program value", kp.x+1, methodName[kp.op.m], st, kp.want, got))
+		case kp.x > 0 && freshAgrees(kp.op):
+			k.fail(k.site+"/rerun-differs", fmt.Sprintf("execution #%d (%s(%q)) of the one program value: the returned iterator yields %v, reference %v", kp.x+1, methodName[kp.op.m], st, got, kp.want))
+		default:
+			k.fail(k.site+"/raw-result", fmt.Sprintf("execution #%d (%s(%q)): the returned iterator yields %v, reference %v", kp.x+1, methodName[kp.op.m], st, got, kp.want))
 		}
-		if calls[0].err != werr {
-			ck.fail(key+"/handler-error", fmt.Sprintf("%s handed its handler %s, the program failed with %s", name, errStr(calls[0].err), errStr(werr)), wit)
-			return
+		return
+	}
+}
+
+func reuseCheck[T any](k *rerunner, mk func(c *rctx) fp.StateT[S, T], p fp.StateT[S, T], view func(T) []int) {
+	if k.bad {
+		return
+	}
+	r := k.r
+	pos := r.IntN(len(reuseNames))
+	two := func(a, b T) []int { return append(append([]int{}, view(a)...), view(b)...) }
+	var q fp.StateT[S, []int]
+	switch pos {
+	case 0:
+		q = statet.Map(statet.Concat(p, p), view)
+	case 1:
+		q = statet.Map2(p, p, two)
+	case 2:
+		q = statet.Map(statet.Zip(p, p), func(t fp.Tuple2[T, T]) []int { return two(t.I1, t.I2) })
+	case 3:
+		q = statet.Map(p.RecoverWith(func(error) fp.StateT[S, T] { return p }), view)
+	case 4:
+		q = statet.Map(statet.Sequence([]fp.StateT[S, T]{p, p}), func(l []T) []int {
+			if len(l) != 2 { // wrong, and reported as a value difference rather than a panic of this function
+				return []int{-1 << 40, len(l)}
+			}
+			return two(l[0], l[1])
+		})
+	case 5:
+		q = statet.Map(statet.FlatMap(p, func(T) fp.StateT[S, T] { return p }), view)
+	default:
+		q = statet.Map(statet.FlatMapConst(p, p), view)
+	}
+	k.w.Hit("reuse/" + reuseNames[pos])
+	for x := 0; x < 2 && !k.bad; x++ {
+		st := k.states[r.IntN(len(k.states))]
+		rc := &rctx{fails: k.fails, errs: k.errs}
+		// reference: the program twice in sequence (RecoverWith: again only after a failure)
+		var want []int
+		v1, e1, s1 := rc.refList(k.n, k.env, st)
+		werr, ws := e1, s1
+		second := false
+		if pos == 3 {
+			want = v1
+			if e1 != nil {
+				second = true
+				want, werr, ws = rc.refList(k.n, k.env, s1)
+			}
+		} else if e1 == nil {
+			second = true
+			v2, e2, s2 := rc.refList(k.n, k.env, s1)
+			werr, ws = e2, s2
+			switch pos {
+			case 1, 2, 4:
+				want = append(append([]int{}, v1...), v2...)
+			default:
+				want = v2
+			}
 		}
-		if calls[0].hasS && calls[0].s != ws {
-			ck.fail(key+"/handler-state", fmt.Sprintf("%s handed its handler the state %q, the state at the failure is %q (initial state %q)", name, calls[0].s, ws, s0), wit)
-			return
+		k.lc.trace = nil
+		k.lc.budget = vrt.NewBudget(int64(len(rc.trace)*4+64), "callbacks of one StateT run")
+		k.w.Add("rerun.executions", 1)
+		k.w.Site(k.site)
+		t, s := q.Run(st)
+		what := fmt.Sprintf("%s with p the one program value, execution #%d, Run(%q): ", reuseNames[pos], x+1, st)
+		bad := ""
+		switch {
+		case werr != nil && (!t.IsFailure() || t.Failed().Get() != werr):
+			bad = fmt.Sprintf("result %v, reference Failure(%s)", t, errStr(werr))
+		case werr == nil && (!t.IsSuccess() || !eqInts(t.Get(), want)):
+			bad = fmt.Sprintf("result %v, reference Success(%v)", t, want)
+		case s != ws:
+			bad = fmt.Sprintf("final state %q, reference %q", s, ws)
+		default:
+			if ok, why := sameTrace(k.lc.trace, rc.trace); !ok {
+				bad = why
+			}
 		}
-		if !sameTry(t, recK, nil) {
-			ck.fail(key+"/recovered-result", fmt.Sprintf("%s returned %s, its handler produced %d", name, tryStr(t), recK), wit)
-			return
+		if bad == "" {
+			continue
 		}
-		if s != ws {
-			ck.fail(key+"/recovered-state", fmt.Sprintf("%s returned the state %q, the state at the failure is %q (initial state %q)", name, s, ws, s0), wit)
-			return
+		// the sharing is to blame only if two freshly built values, each run once from the
+		// states the two positions start in, agree with the reference
+		saved := k.states
+		k.states = []string{st, s1}
+		fresh := func(stIdx int) string {
+			fc := &rctx{fails: k.fails, errs: k.errs}
+			w1, _, _, _, _ := exec1(k, mk(fc), fc, execOp{'R', stIdx}, view, false)
+			return w1
 		}
-		if ok, why := sameTrace(lc.trace, want); !ok {
-			ck.fail(key+"/callbacks", name+" changed what the wrapped program executed: "+why, wit)
-			return
+		w1 := fresh(0)
+		if w1 == "" && second {
+			w1 = fresh(1)
 		}
+		k.states = saved
+		if w1 != "" {
+			k.fail(k.site+"/raw-"+w1, what+bad+"\n(a freshly built value run once disagrees with the reference as well)")
+		} else {
+			k.fail(k.site+"/reused-value-differs", what+bad)
+		}
+		return
+	}
+}
+
+func viewIter(it fp.Iterator[int]) []int { return it.ToSeq() }
+func viewSeq(l fp.Seq[int]) []int        { return l }
+func viewSlice(l []int) []int            { return l }
+func viewInt(v int) []int                { return []int{v} }
+
+func runRerunCase(w *vrt.W, i int) {
+	r := w.Rand(i)
+	kind := rerunKinds[(i+w.Batch)%len(rerunKinds)]
+	g := &pgen{r: r, budget: 2 + r.IntN(5), maxDep: 1 + r.IntN(3), share: true}
+	n := g.newNode(kind)
+	g.fill(n, 0)
+	if n.items != nil && r.IntN(2) == 0 {
+		n.items = make([]int, r.IntN(9))
+		for j := range n.items {
+			n.items[j] = r.IntN(9) - 4
+		}
+	}
+	setSizes(n)
+	desc := n.String()
+	env := r.IntN(5) - 2
+	states := []string{statePool[r.IntN(len(statePool))], randState(r), randState(r)}
+	nfp := len(g.errs)
+	variants := [][]bool{make([]bool, nfp)}
+	for x := 0; x < 3 && nfp > 0; x++ {
+		f := make([]bool, nfp)
+		if x < 2 {
+			f[r.IntN(nfp)] = true
+		} else {
+			for j := range f {
+				f[j] = r.IntN(3) == 0
+			}
+		}
+		variants = append(variants, f)
+	}
+	st := site(kind)
+	w.Begin(i, st)
+	elems := len(n.items)
+	if kind == kSequence || kind == kSequenceIterator {
+		elems = len(n.kids)
+	}
+	for _, fails := range variants {
+		wit := map[string]any{"site": st, "program": desc, "arg": env, "initial_states": states, "failing_points": failStr(fails)}
+		lc := &rctx{fails: fails, errs: g.errs}
+		k := &rerunner{w: w, i: i, r: r, site: st, n: n, env: env, fails: fails, errs: g.errs, lc: lc, states: states, wit: wit}
+		ok := w.Guard(i, func() any { return wit }, func() {
+			items := func() []int { return append([]int(nil), n.items...) }
+			fnOf := func(c *rctx) func(a int) ST { return func(a int) ST { return c.build(n.kids[0], a) } }
+			w.Site(st)
+			switch kind {
+			case kFoldM:
+				mk := func(c *rctx) ST {
+					return statet.FoldM(iterator.FromSeq(items()), n.k, func(b, a int) ST { return c.build(n.kids[0], b*3+a) })
+				}
+				p := mk(lc)
+				rerunCheck(k, mk, p, viewInt, false)
+				reuseCheck(k, mk, p, viewInt)
+			case kTraverse, kTraverseFunc:
+				mk := func(c *rctx) fp.StateT[S, fp.Iterator[int]] {
+					if kind == kTraverse {
+						return statet.Traverse(iterator.FromSeq(items()), fnOf(c))
+					}
+					return statet.TraverseFunc[S](fnOf(c))(iterator.FromSeq(items()))
+				}
+				p := mk(lc)
+				rerunCheck(k, mk, p, viewIter, true)
+				reuseCheck(k, mk, p, viewIter)
+			case kTraverseSeq, kTraverseSeqFunc, kFlatMapTraverseSeq:
+				mk := func(c *rctx) fp.StateT[S, fp.Seq[int]] {
+					switch kind {
+					case kTraverseSeq:
+						return statet.TraverseSeq(fp.Seq[int](items()), fnOf(c))
+					case kTraverseSeqFunc:
+						return statet.TraverseSeqFunc[S](fnOf(c))(fp.Seq[int](items()))
+					}
+					ta := statet.Map(c.build(n.kids[1], env), func(v int) fp.Seq[int] { return fp.Seq[int](shifted(n.items, v)) })
+					return statet.FlatMapTraverseSeq(ta, fnOf(c))
+				}
+				p := mk(lc)
+				rerunCheck(k, mk, p, viewSeq, false)
+				reuseCheck(k, mk, p, viewSeq)
+			case kTraverseSlice, kTraverseSliceFunc, kFlatMapTraverseSlice, kSequence:
+				mk := func(c *rctx) fp.StateT[S, []int] {
+					switch kind {
+					case kTraverseSlice:
+						return statet.TraverseSlice(items(), fnOf(c))
+					case kTraverseSliceFunc:
+						return statet.TraverseSliceFunc[S](fnOf(c))(items())
+					case kFlatMapTraverseSlice:
+						ta := statet.Map(c.build(n.kids[1], env), func(v int) []int { return shifted(n.items, v) })
+						return statet.FlatMapTraverseSlice(ta, fnOf(c))
+					}
+					ps := make([]ST, len(n.kids))
+					for j, kid := range n.kids {
+						ps[j] = c.build(kid, env)
+					}
+					return statet.Sequence(ps)
+				}
+				p := mk(lc)
+				rerunCheck(k, mk, p, viewSlice, false)
+				reuseCheck(k, mk, p, viewSlice)
+			case kSequenceIterator:
+				mk := func(c *rctx) fp.StateT[S, fp.Iterator[int]] {
+					ps := make([]ST, len(n.kids))
+					for j, kid := range n.kids {
+						ps[j] = c.build(kid, env)
+					}
+					return statet.SequenceIterator(iterator.FromSeq(ps))
+				}
+				p := mk(lc)
+				rerunCheck(k, mk, p, viewIter, true)
+				reuseCheck(k, mk, p, viewIter)
+			}
+		})
+		w.Add("rerun.program_values", 1)
+		if !ok || k.bad {
+			break
+		}
+		if elems >= 2 {
+			w.Distinct("rerun:" + desc + "@" + strings.Join(states, ",") + "!" + failStr(fails))
+		}
+	}
+	w.Done(i)
+	w.Hit("rerun/" + st)
+	w.Add("rerun.cases", 1)
+	if w.WantSample() && i%211 == 0 && len(desc) < 260 {
+		w.Sample(map[string]any{"kind": "program value executed again and used twice", "site": st, "program": desc, "initial_states": states})
 	}
 }
 
@@ -1339,63 +2109,91 @@ func runLawCase(w *vrt.W, i int) {
 	if r.IntN(4) != 0 {
 		failAt = r.IntN(nsteps)
 	}
-	wit := map[string]any{"law": law, "initial_state": s0, "x": x, "suffix": suffix, "steps": nsteps, "failing_step": failAt}
-	viol := func(key, detail string) { w.Violation(i, key, detail, wit) }
+	// every program value a law builds is executed from two initial states, the second
+	// execution is keyed <site>/rerun-differs
+	s1 := randState(r)
+	both := []string{s0, s1}
+	wit := map[string]any{"law": law, "initial_states": both, "x": x, "suffix": suffix, "steps": nsteps, "failing_step": failAt}
+	bad := false
+	viol := func(key, detail string) {
+		if !bad {
+			bad = true
+			w.Violation(i, key, detail, wit)
+		}
+	}
+	rk := func(pass int, site, key string) string {
+		if pass > 0 {
+			return site + "/rerun-differs"
+		}
+		return site + "/" + key
+	}
 	w.Begin(i, "law/"+law)
 	w.Guard(i, func() any { return wit }, func() {
 		switch law {
 		case "put-then-get":
 			w.Site("statet.Put")
-			for form := 0; form < 3; form++ {
-				var p fp.StateT[S, S]
-				switch form {
-				case 0:
-					p = statet.FlatMapConst(statet.Put(x), statet.Get[S]())
-				case 1:
-					p = statet.FlatMap(statet.Put(x), func(fp.Unit) fp.StateT[S, S] { return statet.Get[S]() })
-				case 2:
-					p = statet.Map2(statet.Put(x), statet.Get[S](), func(_ fp.Unit, s S) S { return s })
-				}
-				t, s := p.Run(s0)
-				if !t.IsSuccess() || t.Get() != x || s != x {
-					viol("statet.Put/put-then-get", fmt.Sprintf("Put(%q) then Get from state %q: result %v, final state %q; expected Success(%q) and state %q", x, s0, t, s, x, x))
-					return
-				}
+			forms := []fp.StateT[S, S]{
+				statet.FlatMapConst(statet.Put(x), statet.Get[S]()),
+				statet.FlatMap(statet.Put(x), func(fp.Unit) fp.StateT[S, S] { return statet.Get[S]() }),
+				statet.Map2(statet.Put(x), statet.Get[S](), func(_ fp.Unit, s S) S { return s }),
 			}
-			if t, s := statet.Put(x).Run(s0); !unitOK(t) || s != x {
-				viol("statet.Put/state", fmt.Sprintf("Put(%q).Run(%q) = (%v, %q)", x, s0, t, s))
-			}
-			if t := statet.Put(x).Exec(s0); !t.IsSuccess() || t.Get() != x {
-				viol("statet.Put/state", fmt.Sprintf("Put(%q).Exec(%q) = %v", x, s0, t))
+			put := statet.Put(x)
+			for pass, st := range both {
+				for _, p := range forms {
+					t, s := p.Run(st)
+					if !t.IsSuccess() || t.Get() != x || s != x {
+						viol(rk(pass, "statet.Put", "put-then-get"), fmt.Sprintf("Put(%q) then Get from state %q: result %v, final state %q; expected Success(%q) and state %q", x, st, t, s, x, x))
+						return
+					}
+				}
+				if t, s := put.Run(st); !unitOK(t) || s != x {
+					viol(rk(pass, "statet.Put", "state"), fmt.Sprintf("Put(%q).Run(%q) = (%v, %q)", x, st, t, s))
+				}
+				if t := put.Exec(st); !t.IsSuccess() || t.Get() != x {
+					viol(rk(pass, "statet.Put", "state"), fmt.Sprintf("Put(%q).Exec(%q) = %v", x, st, t))
+				}
 			}
 		case "get-then-put":
 			w.Site("statet.Get")
-			t, s := statet.FlatMap(statet.Get[S](), statet.Put[S]).Run(s0)
-			if !unitOK(t) || s != s0 {
-				viol("statet.Get/get-then-put", fmt.Sprintf("Get >>= Put from state %q: (%v, %q); expected a no-op", s0, t, s))
-				return
-			}
-			// embedded in a longer program: a change before and after
-			p := statet.Concat(statet.Modify(func(s S) S { return s + "<a>" }), statet.FlatMap(statet.Get[S](), statet.Put[S]), statet.Modify(func(s S) S { return s + "<b>" }))
-			if t, s := p.Run(s0); !unitOK(t) || s != s0+"<a><b>" {
-				viol("statet.Get/get-then-put", fmt.Sprintf("Modify; Get >>= Put; Modify from %q: (%v, %q); expected state %q", s0, t, s, s0+"<a><b>"))
+			gp := statet.FlatMap(statet.Get[S](), statet.Put[S])
+			// embedded in a longer program: a change before and after; the same Get >>= Put
+			// value is used at two positions
+			p := statet.Concat(statet.Modify(func(s S) S { return s + "<a>" }), gp, statet.Modify(func(s S) S { return s + "<b>" }), gp)
+			for pass, st := range both {
+				t, s := gp.Run(st)
+				if !unitOK(t) || s != st {
+					viol(rk(pass, "statet.Get", "get-then-put"), fmt.Sprintf("Get >>= Put from state %q: (%v, %q); expected a no-op", st, t, s))
+					return
+				}
+				if t, s := p.Run(st); !unitOK(t) || s != st+"<a><b>" {
+					viol(rk(pass, "statet.Get", "get-then-put"), fmt.Sprintf("Modify; Get >>= Put; Modify; Get >>= Put from %q: (%v, %q); expected state %q", st, t, s, st+"<a><b>"))
+					return
+				}
 			}
 		case "modify-is-get-put":
 			w.Site("statet.Modify")
 			calls := 0
 			f := func(s S) S { calls++; return s + suffix }
-			t1, s1 := statet.Modify(f).Run(s0)
-			c1 := calls
-			t2, s2 := statet.FlatMap(statet.Get[S](), func(s S) fp.StateT[S, fp.Unit] { return statet.Put(f(s)) }).Run(s0)
-			if !unitOK(t1) || !unitOK(t2) || s1 != s2 || s1 != s0+suffix || c1 != 1 {
-				viol("statet.Modify/modify-is-get-put", fmt.Sprintf("Modify(f).Run(%q) = (%v, %q) with f called %d times; Get >>= Put∘f = (%v, %q); f(s) = %q", s0, t1, s1, c1, t2, s2, s0+suffix))
-				return
-			}
-			// ModifyS / Merge / Run / GetS agree with their definition through Get/Put
-			t3, s3 := statet.ModifyS(f, func(s S) int { return len(s) }).Run(s0)
-			t4, s4 := statet.Merge(f, func(s S) int { return len(s) }).Run(s0)
-			if !t3.IsSuccess() || t3.Get() != len(s0) || s3 != s0+suffix || !t4.IsSuccess() || t4.Get() != len(s0) || s4 != s0+suffix {
-				viol("statet.ModifyS/definition", fmt.Sprintf("ModifyS/Merge(f, len).Run(%q) = (%v, %q) / (%v, %q); expected (Success(%d), %q)", s0, t3, s3, t4, s4, len(s0), s0+suffix))
+			mod := statet.Modify(f)
+			getPut := statet.FlatMap(statet.Get[S](), func(s S) fp.StateT[S, fp.Unit] { return statet.Put(f(s)) })
+			modS := statet.ModifyS(f, func(s S) int { return len(s) })
+			mrg := statet.Merge(f, func(s S) int { return len(s) })
+			for pass, st := range both {
+				calls = 0
+				t1, s1 := mod.Run(st)
+				c1 := calls
+				t2, s2 := getPut.Run(st)
+				if !unitOK(t1) || !unitOK(t2) || s1 != s2 || s1 != st+suffix || c1 != 1 {
+					viol(rk(pass, "statet.Modify", "modify-is-get-put"), fmt.Sprintf("Modify(f).Run(%q) = (%v, %q) with f called %d times; Get >>= Put∘f = (%v, %q); f(s) = %q", st, t1, s1, c1, t2, s2, st+suffix))
+					return
+				}
+				// ModifyS / Merge / Run / GetS agree with their definition through Get/Put
+				t3, s3 := modS.Run(st)
+				t4, s4 := mrg.Run(st)
+				if !t3.IsSuccess() || t3.Get() != len(st) || s3 != st+suffix || !t4.IsSuccess() || t4.Get() != len(st) || s4 != st+suffix {
+					viol(rk(pass, "statet.ModifyS", "definition"), fmt.Sprintf("ModifyS/Merge(f, len).Run(%q) = (%v, %q) / (%v, %q); expected (Success(%d), %q)", st, t3, s3, t4, s4, len(st), st+suffix))
+					return
+				}
 			}
 		case "modifyT-failure-keeps-state":
 			w.Site("statet.ModifyT")
@@ -1403,14 +2201,17 @@ func runLawCase(w *vrt.W, i int) {
 			p := statet.Concat(statet.Modify(func(s S) S { return s + "<a>" }),
 				statet.ModifyT(func(s S) fp.Try[S] { return try.Failure[S](e) }),
 				statet.Modify(func(s S) S { return s + "<never>" }))
-			t, s := p.Run(s0)
-			if !t.IsFailure() || t.Failed().Get() != e || s != s0+"<a>" {
-				viol("statet.ModifyT/failure-state", fmt.Sprintf("Modify(+<a>); ModifyT(fail); Modify from %q: (%v, %q); expected Failure and state %q", s0, t, s, s0+"<a>"))
+			for pass, st := range both {
+				t, s := p.Run(st)
+				if !t.IsFailure() || t.Failed().Get() != e || s != st+"<a>" {
+					viol(rk(pass, "statet.ModifyT", "failure-state"), fmt.Sprintf("Modify(+<a>); ModifyT(fail); Modify from %q: (%v, %q); expected Failure and state %q", st, t, s, st+"<a>"))
+					return
+				}
 			}
 		case "recover-variants-agree":
-			lawRecover(w, i, r, s0, nsteps, failAt, wit)
+			lawRecover(w, i, r, both, nsteps, failAt, wit)
 		default:
-			lawLeftToRight(w, i, strings.TrimPrefix(law, "left-to-right/"), s0, nsteps, failAt, wit)
+			lawLeftToRight(w, i, strings.TrimPrefix(law, "left-to-right/"), both, nsteps, failAt, wit)
 		}
 	})
 	w.Done(i)
@@ -1436,7 +2237,7 @@ func (sp *stepper) step(j int) ST {
 	return run
 }
 
-func lawLeftToRight(w *vrt.W, i int, comb string, s0 string, n, failAt int, wit map[string]any) {
+func lawLeftToRight(w *vrt.W, i int, comb string, both []string, n, failAt int, wit map[string]any) {
 	sp := &stepper{called: make([]int, n), e: &progErr{idx: 77}, failAt: failAt}
 	idx := make([]int, n)
 	for j := range idx {
@@ -1533,148 +2334,190 @@ func lawLeftToRight(w *vrt.W, i int, comb string, s0 string, n, failAt int, wit 
 	default:
 		panic("unknown combinator " + comb)
 	}
-	t, s := p.Run(s0)
-	wantS := s0
+	// the program value is built once (Traverse/FoldM/SequenceIterator from a one-shot
+	// iterator) and executed from both initial states
+	key := "statet." + comb
 	last := n - 1
 	if failAt >= 0 {
 		last = failAt
 	}
-	for j := 0; j <= last; j++ {
-		wantS += "<" + strconv.Itoa(j) + ">"
-	}
-	key := "statet." + comb
-	if failAt < 0 {
-		if !t.IsSuccess() || t.Get() != wantVal {
-			w.Violation(i, key+"/left-to-right-value", fmt.Sprintf("%d steps through %s from %q: result %s, expected Success(%d)", n, comb, s0, tryStr(t), wantVal), wit)
+	for pass, s0 := range both {
+		for j := range sp.called {
+			sp.called[j] = 0
+		}
+		k := func(what string) string {
+			if pass > 0 {
+				return key + "/rerun-differs"
+			}
+			return key + "/" + what
+		}
+		nth := ""
+		if pass > 0 {
+			nth = "second execution of the same program value: "
+		}
+		t, s := p.Run(s0)
+		wantS := s0
+		for j := 0; j <= last; j++ {
+			wantS += "<" + strconv.Itoa(j) + ">"
+		}
+		if failAt < 0 {
+			if !t.IsSuccess() || t.Get() != wantVal {
+				w.Violation(i, k("left-to-right-value"), nth+fmt.Sprintf("%d steps through %s from %q: result %s, expected Success(%d)", n, comb, s0, tryStr(t), wantVal), wit)
+				return
+			}
+		} else if !t.IsFailure() || t.Failed().Get() != sp.e {
+			w.Violation(i, k("failure-not-reported"), nth+fmt.Sprintf("%d steps through %s, step %d fails: result %s", n, comb, failAt, tryStr(t)), wit)
 			return
 		}
-	} else if !t.IsFailure() || t.Failed().Get() != sp.e {
-		w.Violation(i, key+"/failure-not-reported", fmt.Sprintf("%d steps through %s, step %d fails: result %s", n, comb, failAt, tryStr(t)), wit)
-		return
-	}
-	if s != wantS {
-		w.Violation(i, key+"/state-at-failure", fmt.Sprintf("%d steps through %s from %q, failing step %d: final state %q, expected %q", n, comb, s0, failAt, s, wantS), wit)
-		return
-	}
-	for j, c := range sp.called {
-		want := 1
-		if j > last {
-			want = 0
-		}
-		if c != want {
-			w.Violation(i, key+"/step-after-failure-ran", fmt.Sprintf("%d steps through %s, failing step %d: step %d ran %d times, expected %d", n, comb, failAt, j, c, want), wit)
+		if s != wantS {
+			w.Violation(i, k("state-at-failure"), nth+fmt.Sprintf("%d steps through %s from %q, failing step %d: final state %q, expected %q", n, comb, s0, failAt, s, wantS), wit)
 			return
 		}
-	}
-	if failAt >= 0 {
-		w.Add("laws.left_to_right_with_failure", 1)
+		for j, c := range sp.called {
+			want := 1
+			if j > last {
+				want = 0
+			}
+			if c != want {
+				w.Violation(i, k("step-after-failure-ran"), nth+fmt.Sprintf("%d steps through %s, failing step %d: step %d ran %d times, expected %d", n, comb, failAt, j, c, want), wit)
+				return
+			}
+		}
+		if failAt >= 0 {
+			w.Add("laws.left_to_right_with_failure", 1)
+		}
 	}
 }
 
-func lawRecover(w *vrt.W, i int, r *rand.Rand, s0 string, n, failAt int, wit map[string]any) {
+func lawRecover(w *vrt.W, i int, r *rand.Rand, both []string, n, failAt int, wit map[string]any) {
 	type obs struct {
-		t      fp.Try[int]
-		s      string
 		hs     string
 		hasHS  bool
 		herr   error
 		hcalls int
 	}
 	e := error(&progErr{idx: 55})
-	mk := func() (ST, *stepper) {
-		sp := &stepper{called: make([]int, n), e: e, failAt: failAt}
-		ps := make([]ST, n)
-		for j := range ps {
-			ps[j] = sp.step(j)
-		}
-		return statet.Concat(ps[0], ps[1:]...), sp
+	e2 := error(&progErr{idx: 56})
+	// ONE program value; every Recover variant wraps this same value, and every wrapper is
+	// executed from both initial states
+	sp := &stepper{called: make([]int, n), e: e, failAt: failAt}
+	ps := make([]ST, n)
+	for j := range ps {
+		ps[j] = sp.step(j)
 	}
-	wantS := s0
+	p := statet.Concat(ps[0], ps[1:]...)
 	last := n - 1
 	if failAt >= 0 {
 		last = failAt
 	}
-	for j := 0; j <= last; j++ {
-		wantS += "<" + strconv.Itoa(j) + ">"
-	}
 	names := []string{"Recover", "RecoverT", "RecoverWithState", "RecoverWithStateT", "RecoverWith", "RecoverCase", "RecoverCaseT", "RecoverCaseWith"}
 	all := make([]obs, len(names))
+	qs := make([]ST, len(names))
 	for vi := range names {
-		p, _ := mk()
 		o := &all[vi]
 		h := func(err error) { o.hcalls++; o.herr = err }
 		hs := func(s S, err error) { o.hcalls++; o.herr = err; o.hs, o.hasHS = s, true }
-		var q ST
 		switch vi {
 		case 0:
-			q = p.Recover(func(err error) int { h(err); return -1 })
+			qs[vi] = p.Recover(func(err error) int { h(err); return -1 })
 		case 1:
-			q = p.RecoverT(func(err error) fp.Try[int] { h(err); return try.Success(-1) })
+			qs[vi] = p.RecoverT(func(err error) fp.Try[int] { h(err); return try.Success(-1) })
 		case 2:
-			q = p.RecoverWithState(func(s S, err error) int { hs(s, err); return -1 })
+			qs[vi] = p.RecoverWithState(func(s S, err error) int { hs(s, err); return -1 })
 		case 3:
-			q = p.RecoverWithStateT(func(s S, err error) fp.Try[int] { hs(s, err); return try.Success(-1) })
+			qs[vi] = p.RecoverWithStateT(func(s S, err error) fp.Try[int] { hs(s, err); return try.Success(-1) })
 		case 4:
-			q = p.RecoverWith(func(err error) ST { h(err); return statet.Pure[S](-1) })
+			qs[vi] = p.RecoverWith(func(err error) ST { h(err); return statet.Pure[S](-1) })
 		case 5:
-			q = p.RecoverCase(func(err error) bool { return err == e }, func(err error) int { h(err); return -1 })
+			qs[vi] = p.RecoverCase(func(err error) bool { return err == e }, func(err error) int { h(err); return -1 })
 		case 6:
-			q = p.RecoverCaseT(func(err error) bool { return err == e }, func(err error) fp.Try[int] { h(err); return try.Success(-1) })
+			qs[vi] = p.RecoverCaseT(func(err error) bool { return err == e }, func(err error) fp.Try[int] { h(err); return try.Success(-1) })
 		case 7:
-			q = p.RecoverCaseWith(func(err error) bool { return err == e }, func(err error) ST { h(err); return statet.Pure[S](-1) })
-		}
-		w.Site("StateT." + names[vi])
-		o.t, o.s = q.Run(s0)
-	}
-	for vi, o := range all {
-		key := "StateT." + names[vi]
-		if failAt < 0 {
-			if !o.t.IsSuccess() || o.t.Get() != n-1 || o.s != wantS || o.hcalls != 0 {
-				w.Violation(i, key+"/success-not-untouched", fmt.Sprintf("%s over %d succeeding steps from %q: (%s, %q), handler calls %d; expected (Success(%d), %q), 0", names[vi], n, s0, tryStr(o.t), o.s, o.hcalls, n-1, wantS), wit)
-				return
-			}
-			continue
-		}
-		if o.hcalls != 1 || o.herr != e {
-			w.Violation(i, key+"/handler-error", fmt.Sprintf("%s: handler called %d times with %s", names[vi], o.hcalls, errStr(o.herr)), wit)
-			return
-		}
-		if o.hasHS && o.hs != wantS {
-			w.Violation(i, key+"/handler-state", fmt.Sprintf("%s over %d steps from %q failing at step %d: handler received state %q, the state at the failure is %q", names[vi], n, s0, failAt, o.hs, wantS), wit)
-			return
-		}
-		if !o.t.IsSuccess() || o.t.Get() != -1 {
-			w.Violation(i, key+"/recovered-result", fmt.Sprintf("%s returned %s, handler produced -1", names[vi], tryStr(o.t)), wit)
-			return
-		}
-		if o.s != wantS {
-			w.Violation(i, key+"/recovered-state", fmt.Sprintf("%s over %d steps from %q failing at step %d: returned state %q, the state at the failure is %q", names[vi], n, s0, failAt, o.s, wantS), wit)
-			return
+			qs[vi] = p.RecoverCaseWith(func(err error) bool { return err == e }, func(err error) ST { h(err); return statet.Pure[S](-1) })
 		}
 	}
 	// handlers that change the state / fail / are not defined
-	if failAt >= 0 {
-		p, _ := mk()
-		t, s := p.RecoverWith(func(error) ST { return statet.Run(func(s S) (int, S) { return 5, s + "<h>" }) }).Run(s0)
-		if !t.IsSuccess() || t.Get() != 5 || s != wantS+"<h>" {
-			w.Violation(i, "StateT.RecoverWith/handler-program-state", fmt.Sprintf("RecoverWith handler program appending <h>: (%s, %q), expected (Success(5), %q)", tryStr(t), s, wantS+"<h>"), wit)
-			return
+	qState := p.RecoverWith(func(error) ST { return statet.Run(func(s S) (int, S) { return 5, s + "<h>" }) })
+	qFail := p.RecoverT(func(error) fp.Try[int] { return try.Failure[int](e2) })
+	called := false
+	qUndef := p.RecoverCase(func(error) bool { return false }, func(error) int { called = true; return 0 })
+	// the program as its own recovery: it fails again at the same step, from the state at the failure
+	qRetry := p.RecoverWith(func(error) ST { return p })
+	for pass, s0 := range both {
+		wantS := s0
+		for j := 0; j <= last; j++ {
+			wantS += "<" + strconv.Itoa(j) + ">"
 		}
-		p, _ = mk()
-		e2 := error(&progErr{idx: 56})
-		t, s = p.RecoverT(func(error) fp.Try[int] { return try.Failure[int](e2) }).Run(s0)
-		if !t.IsFailure() || t.Failed().Get() != e2 || s != wantS {
-			w.Violation(i, "StateT.RecoverT/handler-failure", fmt.Sprintf("RecoverT whose handler fails: (%s, %q), expected (Failure(e2), %q)", tryStr(t), s, wantS), wit)
-			return
+		for vi := range names {
+			key := "StateT." + names[vi]
+			k := func(what string) string {
+				if pass > 0 {
+					return key + "/rerun-differs"
+				}
+				return key + "/" + what
+			}
+			all[vi] = obs{}
+			o := &all[vi]
+			w.Site(key)
+			t, s := qs[vi].Run(s0)
+			if failAt < 0 {
+				if !t.IsSuccess() || t.Get() != n-1 || s != wantS || o.hcalls != 0 {
+					w.Violation(i, k("success-not-untouched"), fmt.Sprintf("%s over %d succeeding steps from %q: (%s, %q), handler calls %d; expected (Success(%d), %q), 0", names[vi], n, s0, tryStr(t), s, o.hcalls, n-1, wantS), wit)
+					return
+				}
+				continue
+			}
+			if o.hcalls != 1 || o.herr != e {
+				w.Violation(i, k("handler-error"), fmt.Sprintf("%s: handler called %d times with %s", names[vi], o.hcalls, errStr(o.herr)), wit)
+				return
+			}
+			if o.hasHS && o.hs != wantS {
+				w.Violation(i, k("handler-state"), fmt.Sprintf("%s over %d steps from %q failing at step %d: handler received state %q, the state at the failure is %q", names[vi], n, s0, failAt, o.hs, wantS), wit)
+				return
+			}
+			if !t.IsSuccess() || t.Get() != -1 {
+				w.Violation(i, k("recovered-result"), fmt.Sprintf("%s returned %s, handler produced -1", names[vi], tryStr(t)), wit)
+				return
+			}
+			if s != wantS {
+				w.Violation(i, k("recovered-state"), fmt.Sprintf("%s over %d steps from %q failing at step %d: returned state %q, the state at the failure is %q", names[vi], n, s0, failAt, s, wantS), wit)
+				return
+			}
 		}
-		p, _ = mk()
-		called := false
-		t, s = p.RecoverCase(func(error) bool { return false }, func(error) int { called = true; return 0 }).Run(s0)
-		if !t.IsFailure() || t.Failed().Get() != e || s != wantS || called {
-			w.Violation(i, "StateT.RecoverCase/not-defined", fmt.Sprintf("RecoverCase not defined at the error: (%s, %q) handler called %v, expected the failure untouched and state %q", tryStr(t), s, called, wantS), wit)
-			return
+		if failAt >= 0 {
+			k := func(key string) string {
+				if pass > 0 {
+					return key[:strings.Index(key, "/")] + "/rerun-differs"
+				}
+				return key
+			}
+			t, s := qState.Run(s0)
+			if !t.IsSuccess() || t.Get() != 5 || s != wantS+"<h>" {
+				w.Violation(i, k("StateT.RecoverWith/handler-program-state"), fmt.Sprintf("RecoverWith handler program appending <h> from %q: (%s, %q), expected (Success(5), %q)", s0, tryStr(t), s, wantS+"<h>"), wit)
+				return
+			}
+			t, s = qFail.Run(s0)
+			if !t.IsFailure() || t.Failed().Get() != e2 || s != wantS {
+				w.Violation(i, k("StateT.RecoverT/handler-failure"), fmt.Sprintf("RecoverT whose handler fails, from %q: (%s, %q), expected (Failure(e2), %q)", s0, tryStr(t), s, wantS), wit)
+				return
+			}
+			called = false
+			t, s = qUndef.Run(s0)
+			if !t.IsFailure() || t.Failed().Get() != e || s != wantS || called {
+				w.Violation(i, k("StateT.RecoverCase/not-defined"), fmt.Sprintf("RecoverCase not defined at the error, from %q: (%s, %q) handler called %v, expected the failure untouched and state %q", s0, tryStr(t), s, called, wantS), wit)
+				return
+			}
+			retryS := wantS
+			for j := 0; j <= last; j++ {
+				retryS += "<" + strconv.Itoa(j) + ">"
+			}
+			t, s = qRetry.Run(s0)
+			if !t.IsFailure() || t.Failed().Get() != e || s != retryS {
+				w.Violation(i, k("StateT.RecoverWith/program-as-its-own-recovery"), fmt.Sprintf("p.RecoverWith(_ => p) from %q, step %d of %d fails both times: (%s, %q), expected the failure and state %q", s0, failAt, n, tryStr(t), s, retryS), wit)
+				return
+			}
+			w.Add("laws.recover_with_failure", 1)
 		}
-		w.Add("laws.recover_with_failure", 1)
 	}
 }
 
@@ -1682,14 +2525,21 @@ func lawRecover(w *vrt.W, i int, r *rand.Rand, s0 string, n, failAt int, wit map
 
 const lawBatches = 2
 
+func rerunBatches(tier string) int {
+	if tier == "thorough" {
+		return 8
+	}
+	return 2
+}
+
 func main() {
 	vrt.Main(vrt.Config{
 		Property: "C17",
 		Batches: func(tier string) int {
 			if tier == "thorough" {
-				return 96 + lawBatches
+				return 96 + lawBatches + rerunBatches(tier)
 			}
-			return 16 + lawBatches
+			return 16 + lawBatches + rerunBatches(tier)
 		},
 		Cases: func(tier string, b int) int {
 			if b < lawBatches {
@@ -1698,6 +2548,12 @@ func main() {
 				}
 				return 2500
 			}
+			if b < lawBatches+rerunBatches(tier) {
+				if tier == "thorough" {
+					return 10000
+				}
+				return 3000
+			}
 			if tier == "thorough" {
 				return 6250
 			}
@@ -1705,9 +2561,12 @@ func main() {
 		},
 		Run: func(w *vrt.W) {
 			for i := w.From; i < w.To; i++ {
-				if w.Batch < lawBatches {
+				switch {
+				case w.Batch < lawBatches:
 					runLawCase(w, i)
-				} else {
+				case w.Batch < lawBatches+rerunBatches(w.Tier):
+					runRerunCase(w, i)
+				default:
 					runProgramCase(w, i)
 				}
 			}
@@ -1723,17 +2582,31 @@ func main() {
 				w.Add("hit.outcome/"+k, v)
 			}
 		},
-		Rule: "case = PRNG StateT[string,int] program skeleton (node budget 8 quick / 16 thorough; the leaves that complete the last combinators may exceed it, see max_program_nodes) over 13 primitives (Pure, FromTry, Get, GetS, GetST, Put, PutWith, Modify, ModifyS, ModifyT, Run, Merge, WithState) and 41 combinators/methods (FlatMap, FlatMapConst, Map, MapT, MapWithState(T), PeekState, Transform, TransformWith, Replace, Flatten, Ap, ApFunc, ApTry, ApOption, Map2, Zip, Map3, Zip3, FlatMap2, Compose, Sequence, SequenceIterator, Concat, 8 Traverse variants, FoldM, 8 Recover* methods), executed from a PRNG initial state with no failure, with exactly one failure at each of its failure points (FromTry, GetST, ModifyT, MapT, MapWithStateT, Transform, ApTry, ApOption=None, failing handlers of RecoverT/RecoverWithStateT/RecoverCaseT) with every pair (failing Recover handler, other failure point; at most 8) and with two PRNG subsets; each execution compares Run, Exec, Eval (result, final state, log of run-time callbacks with their arguments) with a reference interpreter, then wraps the program in each of the 8 Recover variants with equivalent handlers. State = string; every state-changing step appends a token naming the step. Law batches run the explicit instances (Put;Get / Get>>=Put / Modify = Get>>=Put.f / k steps through each sequencing combinator with a failing step / ModifyT failure / the 8 Recover variants on one program). distinct_nontrivial = distinct (program, initial state, failure set) executions in which a failure originated when the state already differed from the initial state AND the final state differs from the failure-free execution of the same skeleton (the failure cut off a later state change), plus left-to-right law instances whose failing step is neither first nor last.",
+		Rule: "case = PRNG StateT[string,int] program skeleton (node budget 8 quick / 16 thorough; the leaves that complete the last combinators may exceed it, see max_program_nodes) over 13 primitives (Pure, FromTry, Get, GetS, GetST, Put, PutWith, Modify, ModifyS, ModifyT, Run, Merge, WithState) and 41 combinators/methods (FlatMap, FlatMapConst, Map, MapT, MapWithState(T), PeekState, Transform, TransformWith, Replace, Flatten, Ap, ApFunc, ApTry, ApOption, Map2, Zip, Map3, Zip3, FlatMap2, Compose, Sequence, SequenceIterator, Concat, 8 Traverse variants, FoldM, 8 Recover* methods), executed from a PRNG initial state with no failure, with exactly one failure at each of its failure points (FromTry, GetST, ModifyT, MapT, MapWithStateT, Transform, ApTry, ApOption=None, failing handlers of RecoverT/RecoverWithStateT/RecoverCaseT) with every pair (failing Recover handler, other failure point; at most 8) and with two PRNG subsets; for each failure set ONE program value is built and executed six times in PRNG order (Run, Exec, Eval from the first initial state, Run from a second, two PRNG method/state choices out of three states), each execution compared (result, final state, log of run-time callbacks with their arguments) with a reference interpreter started in the same state, all kept results compared again after the last execution; the same value is then wrapped in each of the 8 Recover variants with equivalent handlers and every wrapper is executed from two initial states. Program VALUES are shared inside a skeleton too: a position is filled with an already bound value with probability 1/5, a new subtree is bound with probability 1/5, and with probability 1/4 the operands of Map2/Zip/Ap/ApFunc/Flatten/FlatMapConst/FlatMap/FlatMap2/Map3/Zip3/Concat/Sequence/SequenceIterator are one and the same value, as are a program and the program its RecoverWith/RecoverCaseWith handler or TransformWith failure branch returns (build returns the identical fp.StateT for every occurrence; the reference just runs the sub-program again). A mismatch is keyed by the smallest sub-program that disagrees when built on its own and executed as often (<site>/result|state|callbacks for its first execution, <site>/rerun-differs for a later one). Rerun batches: the raw Iterator/Seq/slice/accumulator-valued program of FoldM, the 6 Traverse forms, FlatMapTraverseSeq/Slice, Sequence, SequenceIterator is built once from its (one-shot) iterator, executed 3..5 times by Run/Exec/Eval from PRNG states (Seq/slice results kept as returned and read again after the later executions, Iterator results read only then) and used at two positions of Concat/Map2/Zip/Sequence/FlatMap/FlatMapConst/its own RecoverWith handler (executed twice). State = string; every state-changing step appends a token naming the step. Law batches run the explicit instances, each program value executed from two initial states (Put;Get / Get>>=Put / Modify = Get>>=Put.f / k steps through each sequencing combinator with a failing step / ModifyT failure / the 8 Recover variants on one program). distinct_nontrivial = distinct (program, initial state, failure set) executions in which a failure originated when the state already differed from the initial state AND the final state differs from the failure-free execution of the same skeleton (the failure cut off a later state change), plus left-to-right law instances whose failing step is neither first nor last, plus rerun cases (program, states, failure set) over at least two elements.",
 		Assumptions: []string{
 			"user callbacks are deterministic and touch nothing but the run's own log",
 			"programs are PRNG samples up to the size bound, not all programs; failure positions of a sampled skeleton are enumerated exhaustively one at a time",
 			"S = string and A = int only; StateT code is parametric in both",
 			"PeekState's callback on a failed program is accepted either way (called with the post-failure state, or not called)",
 			"callbacks that only construct a program from arguments known before the run (Traverse fn, FoldM f, ApFunc thunk, Compose f1) are not part of the compared callback log",
+			"a StateT value is a re-runnable description: executing it again, from any state and at any position of a larger program, means the same as executing a freshly built one; an fp.Iterator ARGUMENT is single-use, so a program is built from it once and that program value is what gets executed repeatedly",
+			"failure sets are fixed per built program value (FromTry/ApTry/ApOption bake the outcome in at construction); executions of one value differ in method and initial state only",
 		},
 		Floors: func(tier string) map[string]int64 {
 			f := map[string]int64{"programs": 60000, "runs": 200000, "runs.top_level_failure": 20000, "runs.failure_recovered": 8000, "distinct": 10000,
-				"laws.left_to_right_with_failure": 1000, "laws.recover_with_failure": 100}
+				"laws.left_to_right_with_failure": 1000, "laws.recover_with_failure": 100,
+				"program_values": 150000, "executions": 2000000, "executions.of_an_already_executed_value": 500000, "executions.from_another_initial_state": 300000,
+				"programs.with_a_value_at_several_positions": 8000, "programs.shared_value_executed_twice_in_one_run": 8000,
+				"rerun.cases": 5000, "rerun.executions_after_the_first": 20000, "rerun.results_inspected_after_later_executions": 10000}
+			for _, k := range rerunKinds {
+				f["hit.rerun/"+site(k)] = 300
+			}
+			for _, n := range reuseNames {
+				f["hit.reuse/"+n] = 500
+			}
+			for _, k := range []int{kRecoverWith, kRecoverCaseWith, kTransformWith, kFlatten, kFlatMapConst, kMap2, kZip, kAp, kApFunc, kFlatMap, kFlatMap2, kMap3, kZip3, kSequence, kSequenceIterator, kConcat} {
+				f["hit.same-value-operands@"+site(k)] = 200
+			}
 			for k := 0; k < nKinds; k++ {
 				f["hit."+site(k)+kindSuffix(k)] = 300
 				if fallible(k) {
